@@ -23,7 +23,7 @@ GATES = ("nontrivial", "runs.exact_accepted", "runs.hit_lamb_max", "fired.total"
 def generate(rng, seed, index, tier):
     fam = str(rng.choice(["qp", "nlp", "degenerate", "domain", "infeasible", "unbounded", "saddle"], p=[0.25, 0.3, 0.1, 0.1, 0.1, 0.05, 0.1]))
     spec, x0, y0 = gen.gen_problem(rng, fam)
-    kw = gen.gen_params(rng, spec, x0, y0, p_knob=0.5, reporting=False)
+    kw = gen.gen_params(rng, spec, x0, y0, p_knob=0.5, reporting=False, numeric=0.3)
     kw["step_control_type"] = str(rng.choice(["Exact", "Fixed", "ResiduumRatio", "DistanceRatio"], p=[0.4, 0.1, 0.25, 0.25]))
     if rng.random() < 0.25:
         kw["lamb_max"] = float(rng.choice([4.0, 64.0, 1e3, 1e5]))
